@@ -409,7 +409,10 @@ def flow_tied_entry(ctx, rid):
                         if ("agg", TLT_, lit) in b_:
                             cmpx[lit] = x
         picks = [b for b, bb in enumerate(us.bbs) if not bb["cleanup"] for st in bb["s"] if st["k"] == "a" and st["r"]["k"] == "agg" and st["r"].get("adt") == "core::option::Option" and st["r"].get("var") == "Some" and us.locals[st["d"][0]]["ty"].startswith("core::option::Option<" + c.LW + "types::TxLogEntry")]
-        if gi is None or not gi.ok or not gi.fail or len(cmpx) != 2 or not picks:
+        if picks and "TxSent" not in cmpx:
+            run.instance(rid, {"fn": "update_stored_tx", "obligation": "the sender's entry is selected by an equality test with TxSent"}, held=False)
+            run.finding(Finding(rid, us.id, "the sender's log entry is no longer selected by `tx_type == TxSent`: an entry of another type - a cancelled send (TxSentCancelled), whose context cancel_tx leaves in the store - is finalized by a late reply, although its inputs were released and may be reserved by another live send", site=us.loc()))
+        elif gi is None or not gi.ok or not gi.fail or len(cmpx) != 2 or not picks:
             run.error("%s: update_stored_tx anchors not found (is_invoiced switch %s, type comparisons %s, selections %d)" % (rid, bool(gi and gi.ok), sorted(cmpx), len(picks)))
         else:
             for b in picks:
@@ -740,3 +743,27 @@ def option_value_none_edges(f, is_src):
             g_ = cfg.call_guard(f, b)
             none_edges |= (g_.fail if fnm.endswith("is_some") else g_.ok)
     return none_edges
+
+
+def next_child_one_account(ctx, rid):
+    """LMDBBackend::next_child reads the counter, builds the path and saves the counter for one and the same account
+    operand (C15.R2; under C07: a receive into a non-active account must not be keyed by another account's counter -
+    it would overwrite an existing record of the destination account)."""
+    run = ctx.run
+    nc = "<grin_wallet_impls::backends::lmdb::LMDBBackend<'ck, C, K> as grin_wallet_libwallet::types::WalletBackend<'ck, C, K>>::next_child"
+    f = ctx.fn(nc)
+    if f is None:
+        run.error("%s: LMDBBackend::next_child not found" % rid)
+        return
+    accts = []
+    for b, t in f.calls():
+        n_ = t.get("f") or ""
+        if n_ == "grin_keychain::types::Identifier::to_bytes" or n_ == "grin_keychain::types::Identifier::to_path":
+            accts.append((n_.split("::")[-1], frozenset(vf.producers(f, t["a"][0]))))
+        elif n_ == c.WOB + "save_child_index":
+            accts.append(("save_child_index", frozenset(vf.producers(f, t["a"][1]))))
+    kinds = {k for k, _p in accts}
+    held = kinds == {"to_bytes", "to_path", "save_child_index"} and len({p_ for _k, p_ in accts}) == 1
+    run.instance(rid, {"fn": "LMDBBackend::next_child", "obligation": "counter read, path built and counter saved for one and the same account", "operands": [(k, sorted(map(str, p_))) for k, p_ in accts]}, held=held)
+    if not held:
+        run.finding(Finding(rid, nc, "next_child reads / derives / bumps under different accounts (the counter of one account, the path of another): a receive into another account is keyed at an index that account has used already and overwrites its record", site=f.loc()))
